@@ -10,6 +10,7 @@ CONSTANTS
   Den = 1
   MaxSlots = 3
   GenN = 0
+  SubOrder = "sorted"
   UnionMode = "any"
   Mode = "mc"
 INIT C40Init
